@@ -100,6 +100,10 @@ def run(tier: str, seed: int) -> int:
         replay_states(run_, res, ex, jnp, jax, half=half)
         tlc.cleanup(res)
     check_random_dense(run_, ex, jnp, rng)
+    # hook events recorded by the library itself (this process and the repository's own tests run with EXPONAX_VERIF=1), validated by
+    # TLC against spec/Trace_Hooks.tla: Dealias
+    from .. import hooktrace as _ht
+    _ht.check(run_, PID, ['Dealias'], ['tests/test_nonlinear_funs.py', 'tests/test_builtin_solvers.py'], {'ev': 'Dealias', 'D': 2, 'N': 12, 'fraction': [2, 3], 'kept': 99})
     # the arithmetic lemmas behind the dealiasing design for EVERY N >= 3 (Apalache, unbounded integers); plus a deliberately false lemma
     # that must be refuted (the proof obligation is not vacuous)
     proved = {}
